@@ -149,6 +149,14 @@ impl<Wr: Write> Serializer for XmlSerializer<Wr> {
     {
         self.namespace_stack.push(NamespaceMap::empty());
 
+        // Register the bindings needed by the attributes before the declarations
+        // are written, so that an attribute's prefix is declared on this tag too.
+        let attrs: Vec<AttrRef<'a>> = attrs.collect();
+        self.find_or_insert_ns(&name);
+        for (attr_name, _) in &attrs {
+            self.find_or_insert_ns(attr_name);
+        }
+
         self.writer.write_all(b"<")?;
         self.qual_name(&name)?;
         if let Some(current_namespace) = self.namespace_stack.0.last() {
